@@ -492,15 +492,52 @@ func osBinding(ctx *core.Ctx) {
 		ctx.Check(okUn, "L5", "filelock.unlock#LOCK_UN", posOfVal(nil, lockFn), "unlock issues LOCK_UN (%d)", unv)
 		fc := g.Calls("syscall.Flock")[0]
 		// argument 1 derives from the lock-type parameter, argument 0 from f.Fd()
-		okArgs := ssax.DerivedFrom(fc.Call.Args[1], isVal(lockFn.Params[1]), nil) && ssax.DerivedFrom(fc.Call.Args[0], func(v ssa.Value) bool {
-			c, ok := v.(*ssa.Call)
-			return ok && c.Call.IsInvoke() && c.Call.Method.Name() == "Fd"
-		}, nil)
+		okArgs := true
+		for _, fc := range g.Calls("syscall.Flock") {
+			if !(ssax.DerivedFrom(fc.Call.Args[1], isVal(lockFn.Params[1]), nil) && ssax.DerivedFrom(fc.Call.Args[0], func(v ssa.Value) bool {
+				c, ok := v.(*ssa.Call)
+				return ok && c.Call.IsInvoke() && c.Call.Method.Name() == "Fd"
+			}, nil)) {
+				okArgs = false
+			}
+		}
 		ctx.Check(okArgs, "L5", "filelock.lock#flock-args", fc.Pos(), "flock is applied to the file's descriptor with the requested lock type")
 		eintr, _ := sc("EINTR")
 		_ = eintr
-		// retry: Flock is in a loop left only when err != EINTR; success return only when err == nil
-		inLoop, _ := g.ReachableWithout(ssax.PointAfter(fc), func(i ssa.Instruction) bool { return i == ssa.Instruction(fc) }, nil)
+		// retry: a Flock is in a loop left only when err != EINTR; success return only when err == nil.
+		// "err" is the result of a Flock call or a merge of such results (a first attempt before the loop
+		// and the retry inside it are the same variable).
+		flockSet := map[ssa.Value]bool{}
+		for _, c := range g.Calls("syscall.Flock") {
+			flockSet[c] = true
+		}
+		var isFlockErr func(v ssa.Value, seen map[ssa.Value]bool) bool
+		isFlockErr = func(v ssa.Value, seen map[ssa.Value]bool) bool {
+			if flockSet[v] {
+				return true
+			}
+			ph, ok := v.(*ssa.Phi)
+			if !ok {
+				return false
+			}
+			if seen[v] {
+				return true
+			}
+			seen[v] = true
+			for _, e := range ph.Edges {
+				if !isFlockErr(e, seen) {
+					return false
+				}
+			}
+			return true
+		}
+		isErr := func(v ssa.Value) bool { return isFlockErr(v, map[ssa.Value]bool{}) }
+		var inLoop ssa.Instruction
+		for _, c := range g.Calls("syscall.Flock") {
+			if hit, _ := g.ReachableWithout(ssax.PointAfter(c), func(i ssa.Instruction) bool { return i == ssa.Instruction(c) }, nil); hit != nil {
+				inLoop = hit
+			}
+		}
 		exitOK := true
 		for _, r := range g.Returns() {
 			facts := g.FactsAtInstr(r)
@@ -512,11 +549,19 @@ func osBinding(ctx *core.Ctx) {
 				k, ok := ssax.ConstInt(mi.X)
 				return ok && k == eintr
 			}
-			if !cmpFact(facts, token.NEQ, isVal(fc), isEINTR) {
+			if !cmpFact(facts, token.NEQ, isErr, isEINTR) {
 				exitOK = false
 			}
-			if ssax.IsNil(ssax.ReturnValues(r)[0]) && !ssax.KnownNil(facts, fc, true) {
-				exitOK = false
+			if ssax.IsNil(ssax.ReturnValues(r)[0]) {
+				known := false
+				for _, f := range facts {
+					if x, eq, ok := ssax.NilCheck(f.Cond); ok && eq == f.Val && isErr(x) {
+						known = true
+					}
+				}
+				if !known {
+					exitOK = false
+				}
 			}
 		}
 		ctx.Check(inLoop != nil && exitOK, "L5", "filelock.lock#eintr", fc.Pos(), "flock retried in a loop (%v) that is left only when the error is not EINTR, and nil is returned only when flock returned nil (%v)", inLoop != nil, exitOK)
